@@ -72,7 +72,7 @@ def run(ctx):
             cov["configs"].append(st)
     finally:
         pool.close()
-    for k in ("use:ok", "use:error", "createdb:error", "restart:restart", "tick:tick", "show:ok"):
+    for k in ("use:ok", "use:error", "createdb:error", "restart:restart", "crash:crash", "tick:tick", "show:ok"):
         if not cov["kinds"].get(k):
             raise vlib.Undecided("vacuous: no scenario ended in %s" % k)
     if cov["leaks"]:
